@@ -3,6 +3,7 @@ package main
 import (
 	"go/token"
 	"go/types"
+	"strconv"
 	"strings"
 
 	"golang.org/x/tools/go/ssa"
@@ -91,9 +92,11 @@ func runC08(c *Ctx) {
 	c.rule("E3", "loops over directory listings iterate a list filtered with the patterns, or guard each use of the item with !IsPathExcluded", 4)
 	c.rule("E5", "inside loops over directory listings the patterns are applied to the listed names, not to joined paths", 1)
 	c.rule("E6", "patterns are compiled one at a time: the regexp.Compile of NewExclusionRegexList sits in a loop over the patterns, its argument is not a concatenation of several of them, and a failed compilation is an error exit", 1)
+	c.rule("E7", "NewExclusionRegexList looks at every pattern it is given: its loops over the patterns have no exit other than the end of the list and the error exit of a failed compilation", 1)
 	c.rule("E4", "exported functions taking pattern strings compile them (error → error exit) before their first mutating effect", 8)
 
 	c.c08CompileEach()
+	c.patternLoopsComplete("E7")
 	s := &c08State{c: c, eff: c.computeEffects(), E: map[*ssa.Function][]int{}}
 	var members []*ssa.Function
 	for _, f := range c.srcFuncs(fsPkgRel) {
@@ -555,4 +558,70 @@ func (c *Ctx) c08CompileEach() {
 		}
 	}
 	c.ok("E6", key, c.ipos(compiles[0]), "each pattern is compiled on its own inside the loop and a failure is tested")
+}
+
+// patternLoopsComplete (C08/E7, C04/N4): a pattern that is never looked at protects nothing. The loops of
+// NewExclusionRegexList must run to the end of the list: the only other way out is an error exit.
+func (c *Ctx) patternLoopsComplete(rule string) {
+	f := c.fn(fsPkgRel, "NewExclusionRegexList")
+	c.FuncsSeen[fname(f)] = true
+	key := fname(f) + "/every-pattern"
+	bad := ""
+	loops := 0
+	for _, h := range f.Blocks {
+		body := map[*ssa.BasicBlock]bool{}
+		var stack []*ssa.BasicBlock
+		for _, p := range h.Preds {
+			if h.Dominates(p) && !body[p] && p != h {
+				body[p] = true
+				stack = append(stack, p)
+			}
+		}
+		if len(stack) == 0 {
+			continue
+		}
+		loops++
+		body[h] = true
+		for len(stack) > 0 {
+			x := stack[len(stack)-1]
+			stack = stack[:len(stack)-1]
+			for _, q := range x.Preds {
+				if !body[q] {
+					body[q] = true
+					stack = append(stack, q)
+				}
+			}
+		}
+		for b := range body {
+			if b == h {
+				continue
+			}
+			for _, sc := range b.Succs {
+				if body[sc] {
+					continue
+				}
+				last := sc.Instrs[len(sc.Instrs)-1]
+				if _, isPanic := last.(*ssa.Panic); isPanic {
+					continue
+				}
+				// an error exit: the block (or the straight line after it) returns a non-nil error
+				x := sc
+				for len(x.Succs) == 1 && len(x.Preds) <= 1 {
+					x = x.Succs[0]
+				}
+				if r, ok := x.Instrs[len(x.Instrs)-1].(*ssa.Return); ok && isErrorExit(f, r) {
+					continue
+				}
+				bad = c.ipos(b.Instrs[len(b.Instrs)-1])
+			}
+		}
+	}
+	switch {
+	case loops == 0:
+		c.undecided(rule, key, c.pos(f.Pos()), "no loop over the patterns found")
+	case bad != "":
+		c.violate(rule, key, bad, "a loop over the patterns can be left here before the end of the list without an error: the patterns after this point are never compiled, so the entries they name are reported, copied, archived or deleted like any other (a blank pattern ahead of a real one is enough)")
+	default:
+		c.ok(rule, key, c.pos(f.Pos()), strconv.Itoa(loops)+" loop(s) over the patterns run to the end of the list (error exits aside)")
+	}
 }
